@@ -25,7 +25,8 @@ def derive_spaces(ctx):
         ret = A.render_type(fn.sig["output"]["1"]) if A.kind(fn.sig["output"]) == "ReturnType::Type" else ""
         if not ret.startswith("Vec"):
             continue
-        filtered = bool(re.search(r"\.filter\(\|[^|]*\|[^)]*(\*ig|info\.enabled|\.enabled)", body))
+        # filtered by the per-field `enabled` flag: `.zip(<flags>).filter(|(_, f)| *f)` or `.filter(|i| i.enabled)`
+        filtered = bool(re.search(r"\.enabled\)\)?\.(?:enumerate\(\)\.)?filter\(\|\(_,(\w+)\)\|\*\1\)", body) or re.search(r"\.filter\(\|(\w+)\|\1\.enabled\)", body))
         methods[fn.name] = EN if filtered else ALL
     # MultiFieldData fields from their initialisers in enabled_fields_data
     efd = A.get_fn(ctx.files, UTILS, "State::enabled_fields_data")
@@ -259,9 +260,12 @@ def index_carriers(ctx, sp):
     space = sp.collection(fn, e)
     if space not in (ALL, EN):
         raise A.AnchorLost(f"{rel}::parse_fields_impl", f"cannot type the enumerated collection `{A.render(e)}`")
-    body = ";".join(A.render_stmt(s) for s in fn.block["stmts"])
+    body = A.fn_text(fn)
     for fld in ("source", "backtrace"):
-        if re.search(r"if let Some\(\(index,_,_\)\)=%s\{parsed_fields\.%s=Some\(index\)" % (fld, fld), body):
+        # `let <sel> = parse_field_impl(.., iter.clone(), "<fld>", ..)?;  if let Some((index,_,_)) = <sel> { parsed.<fld> = Some(index) }`
+        m = A.wsearch(body, 'let sel=parse_field_impl(&pred,state.fields.len(),iter.clone(),"%s",' % fld)
+        sel = m.group("v_sel") if m else None
+        if sel and A.wsearch(body, "if let Some((index,_,_))=%s{parsed.%s=Some(index)}" % (sel, fld)):
             carriers[("ParsedFields", fld)] = space
     if len(carriers) != 2:
         raise A.AnchorLost(f"{rel}::parse_fields_impl", "assignments of source/backtrace from the enumerate index")
